@@ -411,7 +411,9 @@ func (g *progGen) node(depth int) string {
 	case "filter":
 		if g.o.taint {
 			// only filters that neither create markup nor cut entities; body prints scalars only
-			f := pick(g.t, "ftag", []string{"upper", "lower|capfirst", "title", "ljust:8", "upper|center:12", "linenumbers"})
+			f := pick(g.t, "ftag", []string{"upper", "lower|capfirst", "title", "ljust:8", "upper|center:12", "linenumbers",
+				// parameters that come from the context
+				"add:name", "default:html", "upper|add:title", "add:st_struct", "yesno:name", "pluralize:name", "add:obj.Name"})
 			body := g.text() + "{{ " + g.name() + " }}" + g.text()
 			return "{% filter " + f + " %}" + body + "{% endfilter %}"
 		}
